@@ -81,6 +81,15 @@ CLAIMED = {
    "scanned with the statement scanner, must be exactly the reverse statements in (reverse) change order.",
    "Engine execution is SQLite only. The down-file part currently uses SQLite plans; MySQL/PostgreSQL plans share the same formatter code path (dialect-independent templates). PRAGMA foreign_keys bookkeeping statements carry no reverse by design and are skipped on the way down.",
    "4/C17"),
+ "C02": ("exploration",
+   "exhaustive single-edit enumeration + rapid PBT over non-interfering edit sets; metamorphic oracle: reported change set == union of expected change descriptors as a multiset; null relations under copy and permutation",
+   "For MySQL, PostgreSQL and SQLite differs (DefaultDiff, DiffNormalized as the CLI uses) a base schema model is built twice into independent linked schema graphs; the second build carries a set of catalogue edits "
+   "(add/drop table, column, index, PK, FK, check, enum; modify column null/type/default/comment/generated; modify index unique/parts(desc, column, added part, prefix)/attr(type, predicate, include)/comment; modify PK parts; "
+   "modify FK column/ref column/ref table/on update/on delete; modify named check; table comment/engine/auto_increment/WITHOUT ROWID/STRICT). Each edit carries its expected descriptor; the flattened result of SchemaDiff / RealmDiff / TableDiff must equal "
+   "the expected multiset exactly. Every catalogue edit at every applicable site is enumerated (3 levels x declared/permuted order); random sets of 0-8 non-interfering edits with random base reductions and declaration-order permutations on top.",
+   "Expectations follow the differs' documented normal forms (NO ACTION == RESTRICT == '' in MySQL, SQLite type classes, MayWrap); the catalogue never uses an edit whose before/after are equivalent under them. Charset/collation edits are not generated (DefaultDiff needs a live server to resolve defaults). "
+   "PostgreSQL generated-expression changes are refused by the differ by design and are not in its catalogue.",
+   "4/C02"),
 }
 PENDING_REASON = "check not built yet in this session (planned in DESIGN.md section 4; will be claimed once its quick check is green and sensitivity-tested)"
 
